@@ -151,11 +151,23 @@ def run(run):
         run.violation('release-unsupported', 'a release the README lists is '
                       'not a supported protocol', {'versions': missing})
     case = 0
-    for pv in ref.RELEASES:
-        if pv in missing:
-            continue
-        ctx = ConnectionContext(protocol_version=pv)
+    # Releases are visited in a seeded shuffled order and, for every other
+    # packet, through one long-lived context object whose protocol version is
+    # reassigned - what Connection.connect() does when the same object
+    # reconnects to an upgraded server.  Ids/layouts cached per context object
+    # or per process must follow.
+    order = [pv for pv in ref.RELEASES if pv not in missing]
+    rng.shuffle(order)
+    shared_ctx = ConnectionContext(protocol_version=order[0])
+    for pv in order:
+        fresh_ctx = ConnectionContext(protocol_version=pv)
         for name in ref.NAMES:
+            if (case + 1) % 2:
+                shared_ctx.protocol_version = pv
+                ctx = shared_ctx
+                run.count('cases_with_reused_context')
+            else:
+                ctx = fresh_ctx
             case += 1
             if not run.mine(case):
                 continue
